@@ -145,6 +145,13 @@ func mutateAll(n dst.Node) {
 // populate fills every decoration point and spacing of every node so that no field is at its zero value.
 func populate(f *dst.File) {
 	k := 0
+	signature := map[dst.Node]bool{}
+	dst.Inspect(f, func(n dst.Node) bool {
+		if fd, ok := n.(*dst.FuncDecl); ok && fd.Type != nil {
+			signature[fd.Type] = true
+		}
+		return true
+	})
 	dst.Inspect(f, func(n dst.Node) bool {
 		if n == nil {
 			return false
@@ -166,6 +173,11 @@ func populate(f *dst.File) {
 		if nd != nil {
 			nd.Start = append(make(dst.Decorations, 0, 3), fmt.Sprintf("/*S%d*/", k))
 			nd.End = append(make(dst.Decorations, 0, 3), fmt.Sprintf("/*E%d*/", k))
+			// ... and the two spaces differ from each other on every node (but for the signature of a function
+			// declaration, whose spaces printing never consults)
+			if !signature[n] {
+				nd.Before, nd.After = dst.SpaceType(k%3), dst.SpaceType((k+1)%3)
+			}
 		}
 		return true
 	})
